@@ -2,29 +2,96 @@
     Statements only; every proof is [exact <lemma>] into Proofs/.
 
     Model: Model/Hashmap.v (tlb/hashmap.go transcribed over ideal bit lists and
-    abstract cells, see its header).  Specification: Spec/Dict.v (TL-B HashmapE,
-    written from the TON schema).  The value codec is arbitrary (a value is some
-    bits and some references appended to the leaf cell), subject to the
-    round-trip law that appears as a premise ([vcodec]); because the value is
-    the last thing in the leaf the law is only needed in tail position, so
-    rest-of-cell types such as tlb.Any qualify.  Keys are their bit
-    representation; a key type enters only through Equal/Compare ([key_order]). *)
-From Coq Require Import List NArith Arith Lia Bool Sorted Permutation.
+    abstract cells, see its header) — the model of the REPAIRED code:
+    Hashmap.MarshalTLB sorts the (key bits, value) pairs by key bits before
+    encodeMap, and tlb.AddressWithWorkchain marshals to the 288 bits its
+    FixedSize() announces (the old behaviour and its refutation witnesses are in
+    Proofs/HashmapHistory.v and corpus/C05).
+    Specification: Spec/Dict.v (TL-B HashmapE, written from the TON schema).
+
+    The value codec is arbitrary (a value is some bits and some references
+    appended to the leaf cell), subject to the round-trip law that appears as a
+    premise ([vcodec]); because the value is the last thing in the leaf the law
+    is only needed in tail position, so rest-of-cell types such as tlb.Any
+    qualify.  Keys are their bit representation; a key type enters only through
+    Equal/Compare ([key_order]): every statement about Put is for EVERY strict
+    total order, and the orders of the library's key types (UintN, IntN, BitsN,
+    AddressWithWorkchain) are shown to be instances. *)
+From Coq Require Import List NArith ZArith Arith Lia Bool Sorted Permutation.
 From Tongo Require Import Lib.Bits Lib.Res Spec.Dict Model.Hashmap
-  Proofs.DictP Proofs.HashmapP Proofs.HashmapPut Proofs.HashmapP2.
+  Proofs.DictP Proofs.HashmapPut Proofs.HashmapSort Proofs.HashmapKeys
+  Proofs.HashmapP Proofs.HashmapP2 Proofs.HashmapHistory.
 Import ListNotations.
 
 Definition vcodec {V} (venc : V -> bits * list cell) (vdec : bits -> list cell -> option V) : Prop :=
   forall v, vdec (fst (venc v)) (snd (venc v)) = Some v.
 
-(** ** Put / Get *)
+(** ** key types *)
 
-(** Compare/Equal of the key types satisfy what Put needs: UintN and BitsN
-    (bit order) and IntN (numeric order of the two's complement value). *)
+(** Compare/Equal on key bits satisfy what Put needs: bit order (UintN, BitsN,
+    AddressWithWorkchain) and two's complement order (IntN). *)
 Theorem C05_key_order_unsigned : key_order bits_eqb bits_ltb.
 Proof. exact bits_key_order. Qed.
 Theorem C05_key_order_signed : key_order bits_eqb signed_ltb.
 Proof. exact signed_key_order. Qed.
+
+(** ... and these are what the Go methods compute on the values: the encoding
+    has FixedSize() bits, is injective, and Compare on values is the bit-level
+    order above.  UintN (N = w): *)
+Theorem C05_key_uint :
+  forall w x y, (x < 2 ^ N.of_nat w)%N -> (y < 2 ^ N.of_nat w)%N ->
+  length (uint_key w x) = w /\
+  bits_ltb (uint_key w x) (uint_key w y) = (x <? y)%N /\
+  (uint_key w x = uint_key w y -> x = y).
+Proof. intros w x y Hx Hy. split; [apply uint_key_length|apply uint_key_order; assumption]. Qed.
+
+(** IntN (N = w + 1), values in the two's complement range: *)
+Theorem C05_key_int :
+  forall w x y,
+  (- 2 ^ Z.of_nat w <= x < 2 ^ Z.of_nat w)%Z -> (- 2 ^ Z.of_nat w <= y < 2 ^ Z.of_nat w)%Z ->
+  length (int_key (S w) x) = S w /\
+  signed_ltb (int_key (S w) x) (int_key (S w) y) = (x <? y)%Z /\
+  (int_key (S w) x = int_key (S w) y -> x = y).
+Proof. intros w x y Hx Hy. split; [apply int_key_length|apply int_key_order; assumption]. Qed.
+
+(** BitsN (N = 8 * number of bytes): bytes.Compare is bit order. *)
+Theorem C05_key_bytes :
+  forall a b, Forall (fun x => x < 256)%N a -> Forall (fun x => x < 256)%N b -> length a = length b ->
+  length (bytes_key a) = (8 * length a)%nat /\
+  bits_ltb (bytes_key a) (bytes_key b) = bytes_ltb a b.
+Proof. intros a b Ha Hb HL. split; [apply bytes_key_length|apply bytes_key_order; assumption]. Qed.
+
+(** AddressWithWorkchain (after the repair): 288 bits = FixedSize(), and
+    Compare (uint32(workchain), then bytes.Compare) is bit order. *)
+Theorem C05_key_address :
+  forall x y : Z * list N,
+  (- 2 ^ 31 <= fst x < 2 ^ 31)%Z -> (- 2 ^ 31 <= fst y < 2 ^ 31)%Z ->
+  Forall (fun b => b < 256)%N (snd x) -> Forall (fun b => b < 256)%N (snd y) ->
+  length (snd x) = 32%nat -> length (snd y) = 32%nat ->
+  length (addr_key x) = 288%nat /\
+  bits_ltb (addr_key x) (addr_key y) = addr_ltb x y /\
+  (addr_key x = addr_key y -> x = y).
+Proof.
+  intros x y Rx Ry Hx Hy Lx Ly. split; [apply addr_key_length; exact Lx|]. split.
+  - apply addr_key_order; auto. congruence.
+  - apply addr_key_inj; auto. congruence.
+Qed.
+
+(** FINDING addr-workchain-int8 (no small safe repair: the exported field
+    AddressWithWorkchain.Workchain is int8 while the key carries an int32).  The
+    key DEcoder truncates the workchain, so distinct 288-bit keys of a valid
+    dictionary written by another implementation (workchain outside -128..127)
+    decode to the same Go key: "decodes to the mapping it represents" fails for
+    such keys at this key type.  All dictionary-level theorems are about key
+    bits and are unaffected; dictionaries written by this library only hold
+    int8 workchains, on which decoding inverts encoding. *)
+Theorem C05_address_workchain_int8_refuted :
+  let k1 := addr_key (256, repeat 0%N 32)%Z in
+  let k2 := addr_key (0, repeat 0%N 32)%Z in
+  length k1 = 288%nat /\ length k2 = 288%nat /\ k1 <> k2 /\ addr_unkey k1 = addr_unkey k2.
+Proof. exact address_workchain_int8_refuted. Qed.
+
+(** ** Put / Get on the slices *)
 
 (** Folding Put over ANY list of pairs (duplicates allowed) yields a slice that
     is strictly sorted by Compare and holds the last value inserted per key. *)
@@ -41,7 +108,8 @@ Theorem C05_ksorted_is_bit_sorted :
 Proof. exact @ksorted_bits_sorted. Qed.
 
 (** for IntN keys the slice is negative keys ascending, then non-negative keys
-    ascending (each part ascending in bit order) *)
+    ascending (each part ascending in bit order) — NOT bit order; this is why
+    the encoder must not depend on the slice order *)
 Theorem C05_put_sorted_signed_shape :
   forall V n (m : list (bits * V)),
   ksorted bits V signed_ltb m -> keys_len (S n) m ->
@@ -71,7 +139,7 @@ Theorem C05_get_put :
 Proof. exact get_put. Qed.
 
 (** On a dictionary in ascending bit order (what decoding returns) Put/Get of a
-    bit-ordered key type are update/lookup of the abstract map. *)
+    bit-ordered key type ARE update/lookup of the abstract map. *)
 Theorem C05_get_put_agree :
   forall V (m : list (bits * V)) k v, sorted m ->
   put bits_eqb bits_ltb k v m = update k v m /\
@@ -80,6 +148,28 @@ Theorem C05_get_put_agree :
   (forall k', lookup k' (update k v m) = if bits_eqb k k' then Some v else lookup k' m).
 Proof. exact @get_put_agree. Qed.
 Print Assumptions C05_get_put_agree.
+
+(** ** the sort in Hashmap.MarshalTLB *)
+
+(** a permutation; ascending when the keys are distinct; the identity on
+    ascending lists; a function of the set of pairs alone *)
+Theorem C05_sort :
+  forall V (l : list (bits * V)),
+  Permutation l (bsort l) /\
+  (NoDup (map fst l) -> sorted (bsort l)) /\
+  (sorted l -> bsort l = l) /\
+  (forall l', NoDup (map fst l) -> Permutation l l' -> bsort l = bsort l').
+Proof.
+  intros V l. split; [apply bsort_perm|]. split; [apply bsort_sorted|].
+  split; [apply bsort_id|]. intros l'. apply bsort_perm_eq.
+Qed.
+
+(** For EVERY key type: through the sort, Put on any slice with distinct keys
+    is update of the abstract map. *)
+Theorem C05_put_is_update_any_order :
+  forall V klt, key_order bits_eqb klt -> forall k v (m : list (bits * V)),
+  NoDup (map fst m) -> bsort (put bits_eqb klt k v m) = update k v (bsort m).
+Proof. exact bsort_put. Qed.
 
 (** ** labels *)
 
@@ -142,14 +232,14 @@ Theorem C05_decode_e_any_label_form :
   decode_e vdec n c = Ok (match t with Some a => tree_to_list [] (erase a) | None => [] end).
 Proof. exact decode_e_any_label_form. Qed.
 
-(** ** the encoder *)
+(** ** the encoder: any key width, distinct keys of that width in ANY order *)
 
-(** On a slice in ascending bit order the encoder emits the serialisation of
-    THE Patricia tree of that list, choosing short/long by the 8-bit rule. *)
+(** It emits the serialisation of THE Patricia tree of the bit-sorted list,
+    choosing short/long by the 8-bit rule. *)
 Theorem C05_encode_is_canonical :
   forall V venc n (kvs : list (bits * V)),
-  sorted kvs -> keys_len n kvs -> kvs <> [] ->
-  exists t, wf_pt n t /\ tree_to_list [] t = kvs /\
+  NoDup (map fst kvs) -> keys_len n kvs -> kvs <> [] ->
+  exists t, wf_pt n t /\ tree_to_list [] t = bsort kvs /\
             encode venc n kvs = cells_of venc n (annot_go V t).
 Proof. exact encode_is_canonical. Qed.
 
@@ -158,102 +248,128 @@ Theorem C05_encode_ok :
   forall V venc n vmax (kvs : list (bits * V)),
   (forall v, length (fst (venc v)) <= vmax /\ length (snd (venc v)) <= 4)%nat ->
   (Nat.max 16 (2 + lim_width n + n) + vmax <= 1023)%nat ->
-  sorted kvs -> keys_len n kvs ->
+  NoDup (map fst kvs) -> keys_len n kvs ->
   exists c, encode_e venc n kvs = Ok c.
 Proof. exact encode_ok. Qed.
 
-(** Round trip: strictly sorted distinct n-bit keys, any number of them. *)
+(** Round trip: decoding returns exactly the same pairs, in ascending bit order. *)
 Theorem C05_encode_decode_dict :
   forall V venc vdec, vcodec venc vdec ->
   forall n (kvs : list (bits * V)) c,
-  sorted kvs -> keys_len n kvs -> kvs <> [] ->
-  encode venc n kvs = Ok c -> decode vdec n c = Ok kvs.
-Proof. exact encode_decode_dict. Qed.
+  NoDup (map fst kvs) -> keys_len n kvs -> kvs <> [] ->
+  encode venc n kvs = Ok c ->
+  decode vdec n c = Ok (bsort kvs) /\ sorted (bsort kvs) /\ Permutation kvs (bsort kvs).
+Proof.
+  intros V venc vdec Hc n kvs c Hnd Hl Hne He.
+  split; [exact (encode_decode_dict V venc vdec Hc n kvs c Hnd Hl Hne He)|].
+  split; [exact (bsort_sorted V kvs Hnd)|exact (bsort_perm V kvs)].
+Qed.
 Print Assumptions C05_encode_decode_dict.
 
 Theorem C05_encode_decode_dict_e :
   forall V venc vdec, vcodec venc vdec ->
   forall n (kvs : list (bits * V)) c,
-  sorted kvs -> keys_len n kvs ->
-  encode_e venc n kvs = Ok c -> decode_e vdec n c = Ok kvs.
-Proof. exact encode_decode_dict_e. Qed.
+  NoDup (map fst kvs) -> keys_len n kvs ->
+  encode_e venc n kvs = Ok c ->
+  decode_e vdec n c = Ok (bsort kvs) /\ sorted (bsort kvs) /\ Permutation kvs (bsort kvs).
+Proof.
+  intros V venc vdec Hc n kvs c Hnd Hl He.
+  split; [exact (encode_decode_dict_e V venc vdec Hc n kvs c Hnd Hl He)|].
+  split; [exact (bsort_sorted V kvs Hnd)|exact (bsort_perm V kvs)].
+Qed.
+Print Assumptions C05_encode_decode_dict_e.
 
-(** ** end to end: Put in any order, Marshal, Unmarshal *)
+(** The cells (hence bytes and hash) depend only on the set of pairs: any two
+    orders of the slice give the same result, success or failure. *)
+Theorem C05_encode_order_independent :
+  forall V (venc : V -> bits * list cell) n (l1 l2 : list (bits * V)),
+  NoDup (map fst l1) -> Permutation l1 l2 ->
+  encode venc n l1 = encode venc n l2 /\ encode_e venc n l1 = encode_e venc n l2.
+Proof. exact encode_perm_invariant. Qed.
+Print Assumptions C05_encode_order_independent.
 
-(** UintN / BitsN keys: the decoded dictionary is the Put slice itself, it is
-    ascending in bit order and holds exactly the inserted pairs. *)
+(** ** end to end: Put in any order, Marshal, Unmarshal — every key type *)
 Theorem C05_puts_encode_decode :
   forall V venc vdec, vcodec venc vdec ->
+  forall klt, key_order bits_eqb klt ->
   forall n (l : list (bits * V)) c,
   NoDup (map fst l) -> keys_len n l ->
-  let m := puts bits_eqb bits_ltb l [] in
-  encode_e venc n m = Ok c ->
-  decode_e vdec n c = Ok m /\ sorted m /\ (forall k v, In (k, v) m <-> In (k, v) l).
+  encode_e venc n (puts bits_eqb klt l []) = Ok c ->
+  decode_e vdec n c = Ok (bsort l) /\ sorted (bsort l) /\ Permutation l (bsort l).
 Proof. exact puts_encode_decode. Qed.
 Print Assumptions C05_puts_encode_decode.
 
-(** IntN keys: the Put slice has the negative keys first; the decoded
-    dictionary holds the same pairs with the non-negative keys first, i.e. in
-    ascending bit order. *)
-Theorem C05_puts_encode_decode_signed :
-  forall V venc vdec, vcodec venc vdec ->
-  forall n (l : list (bits * V)) c,
-  NoDup (map fst l) -> keys_len (S n) l ->
-  let m := puts bits_eqb signed_ltb l [] in
-  encode_e venc (S n) m = Ok c ->
-  (forall k v, In (k, v) m <-> In (k, v) l) /\
-  exists L R, m = addp [true] R ++ addp [false] L /\ sorted L /\ sorted R /\
-              decode_e vdec (S n) c = Ok (addp [false] L ++ addp [true] R).
-Proof. exact puts_encode_decode_signed. Qed.
-Print Assumptions C05_puts_encode_decode_signed.
-
-(** The cells do not depend on the insertion order (any key type). *)
-Theorem C05_encode_order_independent :
+(** two insertion orders give the same cells (any key type) *)
+Theorem C05_puts_encode_order_independent :
   forall V (venc : V -> bits * list cell) keq klt n (l1 l2 : list (bits * V)),
   key_order keq klt -> NoDup (map fst l1) -> Permutation l1 l2 ->
   encode_e venc n (puts keq klt l1 []) = encode_e venc n (puts keq klt l2 []).
 Proof. exact @encode_order_independent. Qed.
 
-(** ** findings: what the faithful model refutes *)
+(** ** Get / Put on a decoded dictionary, then Marshal / Unmarshal — every key type
+    (signed and address keys included): the answers of Get are lookups in the
+    updated abstract map and the re-encoded dictionary decodes to it. *)
+Theorem C05_ops_agree :
+  forall V venc vdec, vcodec venc vdec ->
+  forall klt, key_order bits_eqb klt ->
+  forall n (m0 l : list (bits * V)),
+  sorted m0 -> keys_len n m0 -> keys_len n l ->
+  let mf := puts bits_eqb klt l m0 in
+  (forall k, get bits_eqb k mf = lookup k (updates l m0)) /\
+  sorted (updates l m0) /\ keys_len n (updates l m0) /\
+  (forall c, encode_e venc n mf = Ok c -> decode_e vdec n c = Ok (updates l m0)).
+Proof. exact ops_agree. Qed.
+Print Assumptions C05_ops_agree.
 
-(** F19.  tlb.AddressWithWorkchain: FixedSize() = 288 but the encoding has 264
-    bits; a one-entry dictionary encodes and then fails to decode.  Hence
-    C05_encode_decode_dict cannot be instantiated at that key type (its premise
-    [keys_len 288] is false for the 264-bit keys the encoder is given). *)
-Theorem C05_address_key_refuted :
-  let k := repeat true 8 ++ repeat false 256 in
+(** the same starting from the cells of ANY valid dictionary (any label forms) *)
+Theorem C05_decoded_ops_agree :
+  forall V venc vdec, vcodec venc vdec ->
+  forall klt, key_order bits_eqb klt ->
+  forall n (t : option (apt V)) c0 (l : list (bits * V)),
+  (forall a, t = Some a -> wf_pt n (erase a) /\ forms_valid a) ->
+  cells_of_e venc n t = Ok c0 -> keys_len n l ->
+  exists m0, decode_e vdec n c0 = Ok m0 /\ sorted m0 /\ keys_len n m0 /\
+    let mf := puts bits_eqb klt l m0 in
+    (forall k, get bits_eqb k mf = lookup k (updates l m0)) /\
+    (forall c, encode_e venc n mf = Ok c -> decode_e vdec n c = Ok (updates l m0)).
+Proof. exact decoded_ops_agree. Qed.
+Print Assumptions C05_decoded_ops_agree.
+
+(** ** the inputs that refuted the property before the repairs, now *)
+Theorem C05_address_key_fixed :
+  let k := addr_key (-1, repeat 0%N 32)%Z in
+  length k = 288%nat /\
   exists c, encode_e venc_bit 288 [(k, true)] = Ok c /\
-            decode_e vdec_bit 288 c = Err ENotEnoughRefs.
-Proof. exact address_key_refuted. Qed.
+            decode_e vdec_bit 288 c = Ok [(k, true)].
+Proof. exact address_key_fixed. Qed.
 
-(** New finding.  C05_get_put_agree does NOT extend to IntN keys: a decoded
-    dictionary is in bit order, which is not Compare order when both signs are
-    present; Put of a new key followed by Marshal then silently corrupts the
-    dictionary.  Int8 keys {1, -3}, Put(-64): key 1 comes back as -63. *)
-Theorem C05_signed_put_after_decode_refuted :
-  let k1 := bits_of 8 1 in let k3 := bits_of 8 253 in let k64 := bits_of 8 192 in
-  let m := [(k1, false); (k3, true)] in
-  sorted m /\ keys_len 8 m /\
-  exists c c', encode_e venc_bit 8 m = Ok c /\ decode_e vdec_bit 8 c = Ok m /\
-    encode_e venc_bit 8 (put bits_eqb signed_ltb k64 true m) = Ok c' /\
-    decode_e vdec_bit 8 c' = Ok [(k64, true); (bits_of 8 193, false); (k3, true)].
-Proof. exact signed_put_after_decode_refuted. Qed.
+Theorem C05_signed_put_after_decode_fixed :
+  exists c', encode_e venc_bit 8 (put bits_eqb signed_ltb w_k64 true w_m) = Ok c' /\
+    decode_e vdec_bit 8 c' = Ok [(w_k1, false); (w_k64, true); (w_k3, true)] /\
+    update w_k64 true w_m = [(w_k1, false); (w_k64, true); (w_k3, true)].
+Proof. exact signed_put_after_decode_fixed. Qed.
+
+Theorem C05_unsorted_slice_fixed :
+  exists c, encode_e venc_bit 8 w_u = Ok c /\
+    decode_e vdec_bit 8 c = Ok [(bits_of 8 1, true); (bits_of 8 2, true); (bits_of 8 200, false)].
+Proof. exact unsorted_slice_fixed. Qed.
 
 (** ** non-vacuity *)
 
-(** a codec satisfying the law, a five-entry dictionary with a long common
-    prefix (label of 9 bits: long form; labels of 0 bits: short form) that the
-    encoder accepts, and a tree using all three label forms that serialises *)
+(** a codec satisfying the law, a dictionary whose values carry references, a
+    five-entry dictionary given in a scrambled order with a long common prefix
+    (label of 9 bits: long form; labels of 0 bits: short form) that the encoder
+    accepts, and a tree using all three label forms that serialises *)
 Example C05_premises_satisfiable :
   vcodec venc_bit vdec_bit /\ vcodec venc_any vdec_any /\
   (let v1 := Cell [true; false] [Cell [true] []; Cell [] []] in
-   let kvs := [([false; true], v1); ([true; true], Cell [] [])] in
-   sorted kvs /\ keys_len 2 kvs /\ exists c, encode_e venc_any 2 kvs = Ok c) /\
+   let kvs := [([true; true], Cell [] []); ([false; true], v1)] in
+   NoDup (map fst kvs) /\ keys_len 2 kvs /\ exists c, encode_e venc_any 2 kvs = Ok c) /\
   let p := repeat true 9 in
-  let kvs := [(p ++ [false; false; false], true); (p ++ [false; false; true], false);
-              (p ++ [false; true; true], true); (p ++ [true; false; false], true);
-              (p ++ [true; true; true], false)] in
-  sorted kvs /\ keys_len 12 kvs /\ NoDup (map fst kvs) /\
+  let kvs := [(p ++ [true; false; false], true); (p ++ [false; false; true], false);
+              (p ++ [true; true; true], false); (p ++ [false; false; false], true);
+              (p ++ [false; true; true], true)] in
+  keys_len 12 kvs /\ NoDup (map fst kvs) /\ ~ sorted kvs /\
   (exists c, encode_e venc_bit 12 kvs = Ok c) /\
   let t := AFork (FSame true) p
              (AFork FLong [] (ALeaf (FSame false) [false] true) (ALeaf FShort [true] false))
@@ -261,12 +377,15 @@ Example C05_premises_satisfiable :
   wf_pt 12 (erase t) /\ forms_valid t /\ exists c, cells_of venc_bit 12 t = Ok c.
 Proof.
   split; [exact vcodec_bit|]. split; [exact vcodec_any|].
-  split; [cbn zeta; split; [repeat constructor|split; [repeat constructor|vm_compute; eexists; reflexivity]]|].
+  split.
+  { cbn zeta. split; [|split; [repeat constructor|vm_compute; eexists; reflexivity]].
+    cbn [map fst]. repeat constructor; cbn; intuition discriminate. }
   cbn zeta.
   split; [|split; [|split; [|split; [|split; [|split]]]]].
   - repeat constructor.
-  - repeat constructor.
   - cbn [map fst]. repeat constructor; cbn; intuition discriminate.
+  - intros H. apply StronglySorted_inv in H. destruct H as [_ H].
+    apply Forall_inv in H. vm_compute in H. discriminate.
   - vm_compute. eexists. reflexivity.
   - cbn. repeat split; lia.
   - cbn. repeat split; reflexivity.
